@@ -1,0 +1,15 @@
+//go:build verif
+
+package time
+
+import "context"
+
+// VerifSleep, when set, is called by time.sleep before it blocks on its timer
+// and the context. Set once, before any evaluation runs.
+var VerifSleep func(ctx context.Context, seconds float64)
+
+func verifSleep(ctx context.Context, seconds float64) {
+	if VerifSleep != nil {
+		VerifSleep(ctx, seconds)
+	}
+}
